@@ -355,7 +355,16 @@ pub open spec fn map_text(m: Xmap, n: int, fl: Option<usize>) -> Seq<char>
 {
     if n <= 0 { Seq::empty() } else { let e = xmap_nth(m, n - 1).unwrap(); map_text(m, n - 1, fl) + cell_text(e.1, fl) + seq![' '] + cell_text(e.0, fl) + seq![' '] }
 }
+pub open spec fn lit3(a: char, b: char, c: char) -> Seq<char> { seq![a, b, c] }
+spec fn wt_value(rc: &std::rc::Rc<WithTag>) -> Cell { rc.value }
+pub open spec fn tags_text(m: Xmap, n: int, fl: Option<usize>) -> Seq<char>
+    decreases n
+{
+    if n <= 0 { Seq::empty() } else { let e = xmap_nth(m, n - 1).unwrap(); tags_text(m, n - 1, fl) + seq![' '] + cell_text(e.1, fl) + seq![' '] + cell_text(e.0, fl) }
+}
 //@use coll.fns "impl fmt::Debug for Cell"::fmt#vector
+//@use coll.fns "impl fmt::Debug for Cell"::fmt#with_tag
+//@use coll.fns "impl fmt::Debug for Cell"::fmt#show_tags
 //@use coll.fns "impl fmt::Debug for Cell"::fmt#map
 //@use coll.fns "impl fmt::Debug for Cell"::fmt#int
 
